@@ -146,7 +146,7 @@ func permutations(n int) [][]int {
 }
 
 var conflictKinds = []string{"dup_object", "dup_interface", "dup_union", "dup_enum", "dup_input", "overlap_boundary_field", "overlap_namespace_field",
-	"kind_collision", "kind_collision_scalar", "namespace_key_one_side", "boundary_vs_plain", "namespace_vs_boundary"}
+	"kind_collision", "kind_collision_scalar", "namespace_key_one_side", "boundary_vs_plain", "namespace_vs_boundary", "both_flags_one_side", "query_namespace_one_side"}
 
 // injectConflict appends one conflicting definition to two service SDLs. Returns false if the kind does not apply.
 func injectConflict(r *rand.Rand, fed *federation, kind string) bool {
@@ -228,6 +228,20 @@ func injectConflict(r *rand.Rand, fed *federation, kind string) bool {
 		}
 		addTo(a, "type Mixed @boundary { id: ID! x: String }\nextend type Query { _mixed(id: ID!): Mixed @boundary }")
 		addTo(b, "type Mixed { id: ID! y: String }")
+	case "both_flags_one_side":
+		// boundary AND namespace in one service, boundary only in the other: the sides disagree on the namespace flag
+		for _, x := range []*serviceSpec{a, b} {
+			if x.Schema != nil && x.Schema.Query != nil && x.Schema.Query.Fields.ForName("node") != nil {
+				return false
+			}
+		}
+		addTo(a, "type Dual @boundary @namespace { id: ID! x: String }\nextend type Query { dual: Dual! _duals(ids: [ID!]!): [Dual]! @boundary }")
+		addTo(b, "type Dual @boundary { id: ID! y: String }\nextend type Query { _dual(id: ID!): Dual @boundary }")
+	case "query_namespace_one_side":
+		if !strings.Contains(a.SDL, "type Query {") || !strings.Contains(b.SDL, "type Query {") {
+			return false
+		}
+		a.SDL = strings.Replace(a.SDL, "type Query {", "type Query @namespace {", 1)
 	case "namespace_vs_boundary":
 		if a.Schema != nil && a.Schema.Query != nil && a.Schema.Query.Fields.ForName("node") != nil {
 			return false
@@ -241,17 +255,28 @@ func injectConflict(r *rand.Rand, fed *federation, kind string) bool {
 func runMerge(cfg runCfg, pid string) error {
 	r := rand.New(rand.NewSource(cfg.seed))
 	sum := &summary{Property: pid, Seed: cfg.seed, Features: map[string]int{}, CaseInputs: map[string]interface{}{},
-		Rule: "random federation (1-4 services; boundary types shared by random subsets with single/array lookups, plain types, an interface and a union with boundary and plain members, enums with deprecated values, inputs with defaults, a custom scalar declared by several services, nested namespaces, arguments with defaults, descriptions, Mutation) split into service schemas; every one of the n! merge orders through MergeSchemas; tables after UpdateSchema with two forced poll-completion orders; 35% of cases carry ONE injected conflict (10 kinds); non-trivial = >= 2 services and >= 1 shared type, or an injected conflict"}
+		Rule: "random federation (1-4 services; boundary types shared by random subsets with single/array lookups or, for a third of the federations, some services in the former Node syntax, plain types, an interface and a union with boundary and plain members, enums with deprecated values, inputs with defaults, a custom scalar declared by several services, nested namespaces, arguments with defaults, descriptions, Mutation) split into service schemas; every one of the n! merge orders through MergeSchemas; tables after UpdateSchema with two forced poll-completion orders; 35% of cases carry ONE injected conflict (14 kinds); non-trivial = >= 2 services and >= 1 shared type, or an injected conflict"}
 	w := &caseWriter{dir: cfg.out, shard: 25, check: "check_merge_case", imports: "From V Require Import Base.Util Gql.Ast Model.Merge Corr.MergeCheck."}
-	distinct := 0
+	distinct, goOnly := 0, 0
 	for ci := 0; ci < cfg.n; ci++ {
 		r = rand.New(rand.NewSource(cfg.seed*1000003 + int64(ci)*7919))
 		name := fmt.Sprintf("%s-%d-%d", strings.ToLower(pid), cfg.seed, ci)
 		gf := genFederationSDL(r)
+		if r.Intn(3) == 0 {
+			// some services in the former Node syntax (its interface and field are plumbing too)
+			mask := []int{15, 15, 1 + r.Intn(15)}[r.Intn(3)]
+			splitLegacyPick = func(svc string) bool { return len(svc) > 0 && mask>>(uint(svc[0]-'A')%4)&1 == 1 }
+		}
 		fed, err := splitFederation(gf.SDL)
+		splitLegacyPick = nil
 		if err != nil {
 			sum.Features["generator_rejected_split"]++
 			continue
+		}
+		for _, s := range fed.Services {
+			if s.Legacy {
+				sum.Features["service_in_node_syntax"]++
+			}
 		}
 		conflict := ""
 		if r.Intn(100) < 35 && len(fed.Services) >= 2 {
@@ -276,6 +301,26 @@ func runMerge(cfg runCfg, pid string) error {
 		}
 		if !ok {
 			sum.Features["generator_rejected_service_schema"]++
+			continue
+		}
+		if conflict == "query_namespace_one_side" {
+			// the disagreement is with the gateway's own root type: the service is turned away at validation already, and
+			// MergeSchemas must refuse the pair in both orders as well
+			var a, b *ast.Schema
+			for _, s := range fed.Services {
+				if strings.Contains(s.SDL, "type Query @namespace {") {
+					a = s.Schema
+				} else if b == nil {
+					b = s.Schema
+				}
+			}
+			_, e1 := bramble.MergeSchemas(a, b)
+			_, e2 := bramble.MergeSchemas(b, a)
+			sum.GoOracle = append(sum.GoOracle, oracleResult{Case: name, Component: "prop.c08.conflict_rejected", OK: rejected != "" && e1 != nil && e2 != nil,
+				Detail: fmt.Sprintf("Query marked @namespace in one service: validation said %q, MergeSchemas(a,b)=%v, MergeSchemas(b,a)=%v", rejected, e1, e2)})
+			sum.CaseInputs[name] = map[string]interface{}{"annotated_monolith": gf.SDL, "conflict": conflict, "services": len(fed.Services)}
+			sum.Features["conflict_"+conflict]++
+			goOnly++
 			continue
 		}
 		sum.GoOracle = append(sum.GoOracle, oracleResult{Case: name, Component: "prop.c09.conforming_accepted", OK: rejected == "",
@@ -345,6 +390,9 @@ func runMerge(cfg runCfg, pid string) error {
 			_ = es.UpdateSchema(context.Background(), true)
 			var loc, bnd, bq []string
 			for _, k := range sortedKeys(es.Locations) {
+				if strings.HasPrefix(k, "Node.") {
+					continue // plumbing of the former syntax, not a field of the public schema
+				}
 				loc = append(loc, k+"="+es.Locations[k])
 			}
 			for _, k := range sortedKeys(es.IsBoundary) {
@@ -369,7 +417,12 @@ func runMerge(cfg runCfg, pid string) error {
 		// the case for the model
 		var svcTerms []string
 		for _, s := range fed.Services {
-			svcTerms = append(svcTerms, "{| sv_url := "+cstr(s.URL)+"; sv_types := "+cSSchema(s.Schema)+" |}")
+			// what the service publishes, parsed afresh: the objects handed to MergeSchemas above are not trusted to be unchanged
+			fresh, gerr := gqlparser.LoadSchema(&ast.Source{Name: s.Name, Input: s.SDL})
+			if gerr != nil {
+				return gerr
+			}
+			svcTerms = append(svcTerms, "{| sv_url := "+cstr(s.URL)+"; sv_types := "+cSSchema(fresh)+" |}")
 		}
 		obsMerged := "None"
 		if es0.MergedSchema != nil {
@@ -426,6 +479,7 @@ func runMerge(cfg runCfg, pid string) error {
 		return err
 	}
 	sum.Cases, sum.Files, sum.Nontrivial = len(w.cases), files, distinct
+	sum.Features["cases_judged_by_the_go_oracle_only"] = goOnly
 	if err := writeSummary(cfg.out, sum); err != nil {
 		return err
 	}
